@@ -25,7 +25,7 @@ ASSUMPTIONS = ["file-system-layer calls succeed and are atomic (crash points are
                "the property clauses about TS packets are evaluated when the fed data are whole 188-byte packets and a 376-byte "
                "PAT/PMT was fed first (as mpegts does); other inputs are compared model == implementation only"]
 FULL_OUTPUT = True
-TIMEOUT = 600
+TIMEOUT = 150
 
 ROOT = "/v"
 NOW0 = 1700000000000
@@ -196,6 +196,10 @@ def gen_cases(tier, rng):
                 sc.now += 5000
                 sc.N().P(); steady(sc, 0, n2, 1000, per_seg=2); sc.V(n2 * 1000, True); sc.D()
                 yield Case(sc.line(1000, 3, 1, mode), cls="republish" + ("-cleanup" if cleanup == "C" else "-alive-cleanup" if cleanup else ""))
+    # the real ServerManager.CleanupHlsIfNeeded deferred task, with and without a live muxer
+    for mode in [0, 1, 2]:
+        for alive in [1, 0]:
+            yield Case("c10.cleanup %d %d" % (mode, alive), cls="server-manager-cleanup")
     # hostile / degenerate inputs: compared model == implementation only
     sc = Sc().P().V(0, True).D().C()
     yield Case(sc.line(1000, 3, 1, 0), cls="degenerate")
@@ -252,6 +256,8 @@ def gen_cases(tier, rng):
 
 
 def nontrivial(c, out):
+    if c.line.startswith("c10.cleanup"):
+        return c.line
     if not out.startswith("ops ") or ";rn:" not in out:
         return None
     f = c.line.split(" ")
@@ -616,7 +622,7 @@ def check(line, out):
                 session_end(sess, sessions[sess]["disposed"])
     # the replayed file system must be the directory the implementation ended with
     mine = {n: (bytes(v[0]), v[1]) for n, v in fsys.items()}
-    if mine != files:
+    if mine != files and len(fails) <= 12:
         fails.append(("fs", "final directory differs from the replay of the operation log (%s)" % sorted(set(mine) ^ set(files))[:4]))
     return fails
 
@@ -624,6 +630,13 @@ def check(line, out):
 def oracle(c, out):
     if out.startswith(("panic@", "crash@", "timeout")):
         return (False, "implementation crashed: " + out)
+    if c.line.startswith("c10.cleanup"):
+        f = out.split(" ")
+        if len(f) != 4 or f[0] != "ops" or f[2] != "then":
+            return (False, "unreadable observation")
+        if c.line.endswith(" 1") and "ra:" in f[1]:
+            return (False, "the deferred cleanup removed the directory of a stream whose muxer is alive: " + f[1])
+        return (True, "")
     try:
         fails = check(c.line, out)
     except Exception as e:      # unparsable observation
@@ -636,6 +649,8 @@ def oracle(c, out):
 
 
 def classify_finding(c, out):
+    if c.line.startswith("c10.cleanup"):
+        return None
     try:
         fails = check(c.line, out)
     except Exception:
@@ -648,7 +663,11 @@ def classify_finding(c, out):
 def neighbors(c, rng):
     """cases near a disagreement: drop events, change the configuration"""
     f = c.line.split(" ")
+    if f[0] != "c10.run":
+        return
     evs = f[3].split(",") if f[3] != "-" else []
+    if "D" in evs:        # one session only: re-publish over an old playlist is the listed known finding
+        evs = evs[:evs.index("D") + 1]
     for _ in range(60):
         e2 = [e for e in evs if rng.random() < 0.85]
         cf = f[2].split(":")
